@@ -3,7 +3,6 @@ package rules
 import (
 	"fmt"
 	"go/ast"
-	"go/token"
 	"go/types"
 	"strings"
 
@@ -60,185 +59,34 @@ func c16(c *core.Ctx, r *core.Report) {
 	}
 	r.Floor("R16.immutable", 1, "stackPushed")
 
-	// ---- R16.sorted on dataflowTransfer
+	// ---- R16.sorted on dataflowTransfer (SSA for the Defer arm; the RunDefers reset stays a syntactic check)
+	c16sortedSSA(c, r)
 	if fd, _ := c.Decl("analysis/defers", "dataflowTransfer"); fd != nil {
 		for _, ts := range core.TypeSwitchesIn(fd.Body, info, nil) {
 			for _, cl := range ts.Clauses {
 				for _, t := range cl.Types {
-					if t == nil {
+					if t == nil || core.ShortType(t) != "*ssa.RunDefers" {
 						continue
 					}
-					switch core.ShortType(t) {
-					case "*ssa.Defer":
-						sorted := exprAny(cl.Clause, func(n ast.Node) bool {
-							call, ok := n.(*ast.CallExpr)
-							if !ok {
-								return false
-							}
-							o := core.CalleeObj(call, info)
-							if o == nil || o.Pkg() == nil {
-								return false
-							}
-							isSort := (o.Pkg().Path() == "sort" && (o.Name() == "Slice" || o.Name() == "SliceStable")) || (o.Pkg().Path() == "slices" && strings.HasPrefix(o.Name(), "Sort"))
-							if !isSort {
-								return false
-							}
-							return exprAny(call, func(m ast.Node) bool {
-								id, ok := m.(*ast.Ident)
-								return ok && id.Name == "stackCompare"
-							})
-						})
-						r.Check(sorted, "R16.sorted", "analysis/defers.dataflowTransfer|Defer-arm-sorts", c.Pos(cl.Clause.Pos()), "the Defer arm sorts the new stacks with stackCompare before de-duplicating",
-							"the Defer arm no longer sorts its result by stackCompare: stackSetUnion's sorted merge mis-detects changes and drops or duplicates stacks")
-						dedup := exprAny(cl.Clause, func(n ast.Node) bool {
-							be, ok := n.(*ast.BinaryExpr)
-							if !ok || be.Op != token.NEQ {
-								return false
-							}
-							return exprAny(be, func(m ast.Node) bool {
-								id, ok := m.(*ast.Ident)
-								return ok && id.Name == "stackCompare"
-							})
-						})
-						r.Check(dedup, "R16.sorted", "analysis/defers.dataflowTransfer|Defer-arm-dedups", c.Pos(cl.Clause.Pos()), "adjacent equal stacks are removed", "the Defer arm does not de-duplicate: the set representation contains duplicates and union change detection never stabilises or over-reports")
-					case "*ssa.RunDefers":
-						// returns StackSet{Stack{}}
-						single := exprAny(cl.Clause, func(n ast.Node) bool {
-							lit, ok := n.(*ast.CompositeLit)
-							if !ok || !isNamedIn(info.TypeOf(lit), "analysis/defers", "StackSet") || len(lit.Elts) != 1 {
-								return false
-							}
-							inner, ok := lit.Elts[0].(*ast.CompositeLit)
-							return ok && len(inner.Elts) == 0
-						})
-						r.Check(single, "R16.sorted", "analysis/defers.dataflowTransfer|RunDefers-arm-resets", c.Pos(cl.Clause.Pos()), "RunDefers resets to the singleton of the empty stack", "RunDefers does not reset the state to {[]}: defers already run are reported again at later exits")
-					}
+					// returns StackSet{Stack{}}
+					single := exprAny(cl.Clause, func(n ast.Node) bool {
+						lit, ok := n.(*ast.CompositeLit)
+						if !ok || !isNamedIn(info.TypeOf(lit), "analysis/defers", "StackSet") || len(lit.Elts) != 1 {
+							return false
+						}
+						inner, ok := lit.Elts[0].(*ast.CompositeLit)
+						return ok && len(inner.Elts) == 0
+					})
+					r.Check(single, "R16.sorted", "analysis/defers.dataflowTransfer|RunDefers-arm-resets", c.Pos(cl.Clause.Pos()), "RunDefers resets to the singleton of the empty stack", "RunDefers does not reset the state to {[]}: defers already run are reported again at later exits")
 				}
 			}
 		}
 	}
 	r.Floor("R16.sorted", 3, "sort, dedup, reset")
 
-	// ---- R16.change
-	if fd, _ := c.Decl("analysis/defers", "stackSetUnion"); fd != nil {
-		n := 0
-		var walk func(list []ast.Stmt)
-		walk = func(list []ast.Stmt) {
-			for i, st := range list {
-				if as, ok := st.(*ast.AssignStmt); ok && len(as.Rhs) == 1 {
-					if call, ok := as.Rhs[0].(*ast.CallExpr); ok {
-						if id, ok := call.Fun.(*ast.Ident); ok && id.Name == "append" && len(call.Args) == 2 {
-							if a, ok := call.Args[1].(*ast.Ident); ok && strings.HasPrefix(a.Name, "b") {
-								// element of b inserted: sameAsA = false must follow in the same block
-								n++
-								found := false
-								for _, later := range list[i+1:] {
-									if a2, ok := later.(*ast.AssignStmt); ok && len(a2.Lhs) == 1 {
-										if l, ok := a2.Lhs[0].(*ast.Ident); ok && l.Name == "sameAsA" {
-											if v, ok := a2.Rhs[0].(*ast.Ident); ok && v.Name == "false" {
-												found = true
-											}
-										}
-									}
-								}
-								r.Check(found, "R16.change", fmt.Sprintf("analysis/defers.stackSetUnion|insert-from-b#%d", n), c.Pos(st.Pos()),
-									"inserting an element of b clears sameAsA", "an element of b is inserted without clearing sameAsA: the successor block is not re-analysed and stacks of that path are missing at later exits")
-							}
-						}
-					}
-				}
-				switch x := st.(type) {
-				case *ast.IfStmt:
-					walk(x.Body.List)
-					for e := x.Else; e != nil; {
-						switch y := e.(type) {
-						case *ast.BlockStmt:
-							walk(y.List)
-							e = nil
-						case *ast.IfStmt:
-							walk(y.Body.List)
-							e = y.Else
-						default:
-							e = nil
-						}
-					}
-				case *ast.ForStmt:
-					walk(x.Body.List)
-				case *ast.RangeStmt:
-					walk(x.Body.List)
-				}
-			}
-		}
-		walk(fd.Body.List)
-		r.Floor("R16.change", 2, "two insertion sites")
-	} else {
-		r.Fail("infra.anchor-unresolved", "R16.change|stackSetUnion", "", "not found")
-	}
-
-	// ---- R16.index / R16.record / R16.unbounded on AnalyzeFunction
-	if fd, _ := c.Decl("analysis/defers", "AnalyzeFunction"); fd != nil {
-		okIdx, okRec, okUnb := false, false, false
-		ast.Inspect(fd.Body, func(n ast.Node) bool {
-			rs, ok := n.(*ast.RangeStmt)
-			if !ok {
-				return true
-			}
-			se, ok := ast.Unparen(rs.X).(*ast.SelectorExpr)
-			if !ok || se.Sel.Name != "Instrs" {
-				return true
-			}
-			blk, _ := ast.Unparen(se.X).(*ast.Ident)
-			key, _ := rs.Key.(*ast.Ident)
-			val, _ := rs.Value.(*ast.Ident)
-			if blk == nil || key == nil || val == nil {
-				return true
-			}
-			recPos, callPos := token.NoPos, token.NoPos
-			ast.Inspect(rs.Body, func(m ast.Node) bool {
-				switch x := m.(type) {
-				case *ast.CallExpr:
-					if o := core.CalleeObj(x, info); o != nil && o.Name() == "dataflowTransfer" && len(x.Args) == 4 {
-						callPos = x.Pos()
-						a0 := selPath(x.Args[0])
-						a1, _ := ast.Unparen(x.Args[1]).(*ast.Ident)
-						var a2 *ast.Ident
-						if u, ok := ast.Unparen(x.Args[2]).(*ast.UnaryExpr); ok && u.Op == token.AND {
-							a2, _ = u.X.(*ast.Ident)
-						}
-						if len(a0) == 2 && a0[0] == blk.Name && a0[1] == "Index" && a1 != nil && a1.Name == key.Name && a2 != nil && a2.Name == val.Name {
-							okIdx = true
-						}
-					}
-				case *ast.AssignStmt:
-					if len(x.Lhs) == 1 {
-						if ix, ok := x.Lhs[0].(*ast.IndexExpr); ok {
-							if mt, ok := info.TypeOf(ix.X).Underlying().(*types.Map); ok && core.SSATypeName(mt.Key()) == "RunDefers" {
-								recPos = x.Pos()
-							}
-						}
-						// anyRepeated = anyRepeated || repeated
-						if l, ok := x.Lhs[0].(*ast.Ident); ok && len(x.Rhs) == 1 {
-							if be, ok := x.Rhs[0].(*ast.BinaryExpr); ok && be.Op == token.LOR {
-								if a, ok := be.X.(*ast.Ident); ok && a.Name == l.Name {
-									okUnb = true
-								}
-							}
-						}
-					}
-				}
-				return true
-			})
-			if recPos.IsValid() && callPos.IsValid() && recPos < callPos {
-				okRec = true
-			}
-			return true
-		})
-		r.Check(okIdx, "R16.index", "analysis/defers.AnalyzeFunction|producer", c.Pos(fd.Pos()), "the transfer function receives (block.Index, range index over block.Instrs, that instruction)", "the indices pushed on defer stacks are not (BasicBlock.Index, position in Instrs) of the instruction transferred: the consumer resolves them to the wrong instruction")
-		r.Check(okRec, "R16.record", "analysis/defers.AnalyzeFunction|record-before-reset", c.Pos(fd.Pos()), "the stack set at a RunDefers is recorded before the transfer resets it", "the set recorded for a RunDefers is taken after the reset: every exit reports the empty stack only")
-		r.Check(okUnb, "R16.unbounded", "analysis/defers.AnalyzeFunction|accumulate-repeated", c.Pos(fd.Pos()), "the unbounded verdict accumulates every repeated flag", "the repeated flag is overwritten instead of accumulated: a function with a defer in a loop can be reported bounded")
-	} else {
-		r.Fail("infra.anchor-unresolved", "R16.index|AnalyzeFunction", "", "not found")
-	}
+	// ---- R16.change, R16.index (producer), R16.record, R16.unbounded: SSA
+	c16changeSSA(c, r)
+	c16loopSSA(c, r)
 	// consumer
 	if fd, pp := c.Decl("analysis/dataflow", "IntraAnalysisState.getInstr"); fd != nil {
 		params := fd.Type.Params.List
